@@ -417,3 +417,40 @@ func DescribeBlock(b Block, txs []GenTx) string {
 	}
 	return s + "}"
 }
+
+// History is a generated block sequence (inputs only; generated before any node runs so that several nodes can
+// execute exactly the same inputs).
+type History struct {
+	Blocks []Block
+	Txs    [][]GenTx
+}
+
+// GenHistory draws between min and max blocks.
+func (w *World) GenHistory(rt *rapid.T, min, max int) *History {
+	h := &History{}
+	nb := rapid.IntRange(min, max).Draw(rt, "nBlocks")
+	for i := 0; i < nb; i++ {
+		b, txs := w.GenBlock(rt)
+		h.Blocks = append(h.Blocks, b)
+		h.Txs = append(h.Txs, txs)
+	}
+	return h
+}
+
+// Describe renders the history, one entry per block.
+func (h *History) Describe() []string {
+	out := make([]string, len(h.Blocks))
+	for i := range h.Blocks {
+		out[i] = DescribeBlock(h.Blocks[i], h.Txs[i])
+	}
+	return out
+}
+
+// Run executes the history on a node and returns the transcript.
+func (h *History) Run(n *Node) []BlockResult {
+	out := make([]BlockResult, 0, len(h.Blocks))
+	for _, b := range h.Blocks {
+		out = append(out, n.RunBlock(b))
+	}
+	return out
+}
